@@ -37,6 +37,7 @@ def must_see(tier):
             'c:reload-inside-call': 20, 'pin-checks': 5000,
             'failing-call:TypeError': 20, 'failing-call:KeyError': 20,
             'failing-call:ValueError': 5, 'failing-call:IndexError': 1,
+            'c:mutate-reassign': 10, 'py:mutate-reassign': 10,
             'c:inload:sweep-inside-load': 100, 'py:inload:sweep-inside-load': 100,
             'c:inload:reload-after-in-load-sweep': 30,
             'py:inload:reload-after-in-load-sweep': 30,
@@ -262,6 +263,33 @@ EXTRA_OPS = {
     'rwalk': lambda c, idxs, *a: _walk(c.keys(*a), idxs),
     'rwalk_items': lambda c, idxs, *a: _walk(c.items(*a), idxs),
 }
+
+
+def _mutreassign(c, k, box, first, commit=None):
+    """v = c[k]; (change v in place); c[k] = v  - the usual way to update a
+    mutable value.  The same object is stored again: the container has to
+    announce the change all the same.  (The twin gets an equal fresh
+    object.)"""
+    import copy
+    if not first:
+        c[k] = box.pop()
+        return None
+    # (first a private copy, committed: the generated values are shared
+    # between entries, and the step that matters must start from a node
+    # that is NOT already registered)
+    c[k] = copy.deepcopy(c[k])
+    commit()
+    v = c[k]
+    if isinstance(v, list):
+        v.append(len(v))
+    elif isinstance(v, dict):
+        v[len(v)] = 1
+    c[k] = v
+    box.append(copy.deepcopy(v))
+    return None
+
+
+EXTRA_OPS['mutreassign'] = _mutreassign
 
 
 def _walk(seq, idxs):
@@ -555,7 +583,16 @@ def run_history(fam, kind, impl, mode, rng, rec, h):
                     return
             continue
         r_kind = rng.random()
-        if r_kind < 0.15:
+        mut_keys = []
+        if is_mapping and fam.vc == 'O' and mode == 'between' and \
+                r_kind > 0.93:
+            if w is None or not w.inline_nonroot:
+                mut_keys = [k_ for k_, v_ in t.items()
+                            if isinstance(v_, (list, dict))]
+        if mut_keys:
+            op, args = 'mutreassign', (rng.choice(mut_keys),)
+            rec.ev(impl + ':mutate-reassign')
+        elif r_kind < 0.15:
             op, args = range_call(rng, w, present, g.universe, is_mapping,
                                   is_tree)
         elif r_kind < 0.27:
@@ -566,7 +603,11 @@ def run_history(fam, kind, impl, mode, rng, rec, h):
             op, args = g.next_op(w, present)
         log.append((op, args))
         rec.journal(repr((desc, log[-30:])))
-        if op in OPERAND_OPS:
+        if op == 'mutreassign':
+            box = []
+            rargs = (args[0], box, True, conn.commit)
+            targs = (args[0], box, False)
+        elif op in OPERAND_OPS:
             # each side gets its own (identical) other operand
             st_ = rng.getstate()
             rargs = (fam, impl, build_other(fam, impl, args[0], g.values,
@@ -657,6 +698,28 @@ def run_history(fam, kind, impl, mode, rng, rec, h):
                  args=brief(args), observed=brief(got, 300),
                  expected=brief(want, 300))
             return
+        if op == 'mutreassign':
+            # the change must survive commit + eviction + reload
+            if is_tree and walker.walk(c, is_mapping).inline_nonroot:
+                state['f22'] = True
+            try:
+                conn.commit()
+            except Exception:
+                pass
+            if is_tree and minidb.embedded_but_leaf_has_oid(conn, c):
+                state['f34'] = True
+            conn.cache.minimize()
+            try:
+                got = harness.contents(c, is_mapping)
+            except Exception as e:
+                fail('contents-raised', op=op, detail='%s: %s' % (
+                    type(e).__name__, e))
+                return
+            if not eq(got, want):
+                fail('contents-differ-from-uncached-twin', op=op,
+                     args=brief(args), observed=brief(got, 300),
+                     expected=brief(want, 300), after='commit + sweep')
+                return
         if is_tree and op in harness.MUTATING_OPS:
             errs, _ = hist.structural_checks(c, is_mapping)
             if errs:
